@@ -13,6 +13,8 @@ pub mod c10;
 pub mod c11;
 pub mod c12;
 pub mod c13;
+pub mod c14;
+pub mod c15;
 pub mod c17;
 pub mod c18;
 pub mod c19;
@@ -32,6 +34,8 @@ pub fn lookup(id: &str) -> Option<&'static dyn Property> {
         "C11" => &c11::C11,
         "C12" => &c12::C12,
         "C13" => &c13::C13,
+        "C14" => &c14::C14,
+        "C15" => &c15::C15,
         "C17" => &c17::C17,
         "C18" => &c18::C18,
         "C19" => &c19::C19,
